@@ -15,6 +15,10 @@ use crate::wk::Worker;
 #[path = "../../common/datagen.rs"]
 mod datagen;
 
+pub fn datagen_public(seed: u64, len: usize) -> Vec<u8> {
+    datagen::gen(seed, len)
+}
+
 #[derive(Clone, Debug)]
 pub struct Viol {
     pub class: String,
